@@ -276,6 +276,35 @@ let handle_eval id ast doc =
     (b01 (names_plain q)) (b01 (names_single q)) (b01 (doc_plain d)) (b01 (doc_exact53 d))
     (b01 (wf_json d)) (b01 (wf_query q)) (b01 (rx_query_ok q d)) (b01 dotcr)
 
+(* string level, end to end: model parser then model evaluator; RFC recogniser then RFC semantics *)
+let handle_str id txt doc =
+  let s = str_of (parse_sexp txt) in
+  let d = doc_of (parse_sexp doc) in
+  (match parse_query s with
+   | POk q ->
+     (match m_query q d with
+      | None -> Printf.printf "%s\tM\tERR\n" id
+      | Some ps ->
+        Printf.printf "%s\tM\tOK\t%s\n" id
+          (String.concat " " (List.map (fun p -> loc_str p.ploc ^ "|" ^ cps p.path) ps)))
+   | PErr | PInfLit -> Printf.printf "%s\tM\tERR\n" id
+   | POutOfFuel -> Printf.printf "%s\tM\tOUTOFFUEL\n" id);
+  (match rfc_parse s with
+   | RfcValid q ->
+     let r = rfc_query q d in
+     Printf.printf "%s\tR\tOK\t%s\n" id
+       (String.concat " " (List.map (fun (l, _) -> loc_str l ^ "|" ^ cps (np l)) r));
+     let c = cur_query q d in
+     Printf.printf "%s\tS\tOK\t%s\n" id (String.concat " " (List.map (fun (l, _) -> loc_str l) c));
+     let strict = strict_query q d in
+     let dotcr = (List.map fst strict <> List.map fst r) in
+     Printf.printf "%s\tK\tnames_plain=%s names_single=%s doc_plain=%s exact53=%s wf=%s wfq=%s rx=%s dotcr=%s\n" id
+       (b01 (names_plain q)) (b01 (names_single q)) (b01 (doc_plain d)) (b01 (doc_exact53 d))
+       (b01 (wf_json d)) (b01 (wf_query q)) (b01 (rx_query_ok q d)) (b01 dotcr)
+   | RfcExtension _ -> Printf.printf "%s\tR\tEXT\n" id
+   | RfcIllTyped _ -> Printf.printf "%s\tR\tILLTYPED\n" id
+   | RfcInvalid -> Printf.printf "%s\tR\tINVALID\n" id)
+
 let () =
   try
     while true do
@@ -284,6 +313,10 @@ let () =
         match String.split_on_char '\t' line with
         | ["EVAL"; id; ast; doc] ->
           (try handle_eval id ast doc
+           with Failure m -> Printf.printf "%s\tM\tBADCASE\t%s\n" id m
+              | Stack_overflow -> Printf.printf "%s\tM\tSTACK\n" id)
+        | ["STR"; id; cps; doc] ->
+          (try handle_str id cps doc
            with Failure m -> Printf.printf "%s\tM\tBADCASE\t%s\n" id m
               | Stack_overflow -> Printf.printf "%s\tM\tSTACK\n" id)
         | ["REF"; id; doc; path; repl] ->
